@@ -575,6 +575,135 @@ impl<const LIMBS: usize> UnsatInt<LIMBS> {
     }
 }
 
+/// Verification hooks: the private safegcd building blocks on plain arrays of 62-bit limbs
+/// (`UnsatInt<LIMBS>` is `[u64; LIMBS]`, `Matrix` is `[[i64; 2]; 2]`).
+#[cfg(crypto_bigint_verif)]
+#[allow(dead_code, missing_docs, unreachable_pub)]
+pub(crate) mod verif {
+    use super::{Matrix, SafeGcdInverter, UnsatInt};
+    use crate::{Uint, Word};
+
+    pub const fn inv_mod2_62(value: &[Word]) -> i64 {
+        super::inv_mod2_62(value)
+    }
+
+    pub const fn iterations(f_bits: u32, g_bits: u32) -> usize {
+        super::iterations(f_bits, g_bits)
+    }
+
+    /// `(delta', matrix)`
+    pub const fn jump(f: &[u64], g: &[u64], delta: i64) -> (i64, Matrix) {
+        super::jump(f, g, delta)
+    }
+
+    pub const fn fg<const LIMBS: usize>(
+        f: [u64; LIMBS],
+        g: [u64; LIMBS],
+        t: Matrix,
+    ) -> ([u64; LIMBS], [u64; LIMBS]) {
+        let (f, g) = super::fg(UnsatInt(f), UnsatInt(g), t);
+        (f.0, g.0)
+    }
+
+    pub const fn de<const LIMBS: usize>(
+        modulus: [u64; LIMBS],
+        inverse: i64,
+        t: Matrix,
+        d: [u64; LIMBS],
+        e: [u64; LIMBS],
+    ) -> ([u64; LIMBS], [u64; LIMBS]) {
+        let (d, e) = super::de(&UnsatInt(modulus), inverse, t, UnsatInt(d), UnsatInt(e));
+        (d.0, e.0)
+    }
+
+    /// `(d, f)`
+    pub const fn divsteps<const LIMBS: usize>(
+        e: [u64; LIMBS],
+        f_0: [u64; LIMBS],
+        g: [u64; LIMBS],
+        inverse: i64,
+    ) -> ([u64; LIMBS], [u64; LIMBS]) {
+        let (d, f) = super::divsteps(UnsatInt(e), UnsatInt(f_0), UnsatInt(g), inverse);
+        (d.0, f.0)
+    }
+
+    /// `(d, f)`
+    pub const fn divsteps_vartime<const LIMBS: usize>(
+        e: [u64; LIMBS],
+        f_0: [u64; LIMBS],
+        g: [u64; LIMBS],
+        inverse: i64,
+    ) -> ([u64; LIMBS], [u64; LIMBS]) {
+        let (d, f) = super::divsteps_vartime(UnsatInt(e), UnsatInt(f_0), UnsatInt(g), inverse);
+        (d.0, f.0)
+    }
+
+    pub const fn unsat_from_uint<const SAT_LIMBS: usize, const LIMBS: usize>(
+        input: &Uint<SAT_LIMBS>,
+    ) -> [u64; LIMBS] {
+        UnsatInt::<LIMBS>::from_uint(input).0
+    }
+
+    pub const fn unsat_to_uint<const SAT_LIMBS: usize, const LIMBS: usize>(
+        x: [u64; LIMBS],
+    ) -> Uint<SAT_LIMBS> {
+        UnsatInt(x).to_uint()
+    }
+
+    pub const fn unsat_add<const LIMBS: usize>(
+        a: [u64; LIMBS],
+        b: [u64; LIMBS],
+    ) -> [u64; LIMBS] {
+        UnsatInt(a).add(&UnsatInt(b)).0
+    }
+
+    pub const fn unsat_mul<const LIMBS: usize>(a: [u64; LIMBS], b: i64) -> [u64; LIMBS] {
+        UnsatInt(a).mul(b).0
+    }
+
+    pub const fn unsat_neg<const LIMBS: usize>(a: [u64; LIMBS]) -> [u64; LIMBS] {
+        UnsatInt(a).neg().0
+    }
+
+    pub const fn unsat_shr<const LIMBS: usize>(a: [u64; LIMBS]) -> [u64; LIMBS] {
+        UnsatInt(a).shr().0
+    }
+
+    pub const fn unsat_eq<const LIMBS: usize>(a: [u64; LIMBS], b: [u64; LIMBS]) -> bool {
+        UnsatInt(a).eq(&UnsatInt(b)).to_bool_vartime()
+    }
+
+    pub const fn unsat_is_negative<const LIMBS: usize>(a: [u64; LIMBS]) -> bool {
+        UnsatInt(a).is_negative().to_bool_vartime()
+    }
+
+    pub const fn unsat_leading_zeros<const LIMBS: usize>(a: [u64; LIMBS]) -> u32 {
+        UnsatInt(a).leading_zeros()
+    }
+
+    pub const fn unsat_bits<const LIMBS: usize>(a: [u64; LIMBS]) -> u32 {
+        UnsatInt(a).bits()
+    }
+
+    /// `(modulus, adjuster, inverse)` of an inverter
+    pub const fn inverter_fields<const SAT_LIMBS: usize, const LIMBS: usize>(
+        inverter: &SafeGcdInverter<SAT_LIMBS, LIMBS>,
+    ) -> ([u64; LIMBS], [u64; LIMBS], i64) {
+        (inverter.modulus.0, inverter.adjuster.0, inverter.inverse)
+    }
+
+    /// `SafeGcdInverter::norm(value, negate)`
+    pub const fn inverter_norm<const SAT_LIMBS: usize, const LIMBS: usize>(
+        inverter: &SafeGcdInverter<SAT_LIMBS, LIMBS>,
+        value: [u64; LIMBS],
+        negate: bool,
+    ) -> [u64; LIMBS] {
+        inverter
+            .norm(UnsatInt(value), crate::ConstChoice::from_word_lsb(negate as Word))
+            .0
+    }
+}
+
 #[cfg(test)]
 mod tests {
     use super::iterations;
